@@ -118,6 +118,7 @@ type Frame struct {
 	defers  []deferred
 	depth   int
 	id      string
+	trip    map[*ssa.BasicBlock]int64 // loops whose bound evaluated to a small constant on this path
 }
 
 func (fr *Frame) clone() *Frame {
@@ -134,6 +135,12 @@ func (fr *Frame) clone() *Frame {
 		n.lastPhi[k] = v
 	}
 	n.defers = append([]deferred{}, fr.defers...)
+	if fr.trip != nil {
+		n.trip = make(map[*ssa.BasicBlock]int64, len(fr.trip))
+		for k, v := range fr.trip {
+			n.trip[k] = v
+		}
+	}
 	return n
 }
 
@@ -273,11 +280,28 @@ func (s *Sim) enterBlock(fr *Frame, st *State, b, pred *ssa.BasicBlock, k cont) 
 	v := fr.visits[b]
 	maxV := s.Cfg.MaxVisits
 	if maxV == 0 {
-		maxV = 3
+		maxV = defaultMaxVisits
 	}
 	if n := loopTrip(b); n+1 > int64(maxV) {
 		maxV = int(n + 1) // a loop with a small constant trip count is followed to its end
 	}
+	if isLoopHeader(b) && fr.visits[b] == 1 {
+		// a counting loop whose bound is not a syntactic constant but evaluates to one here
+		if n, ok := s.dynamicTrip(fr, st, b); ok {
+			if fr.trip == nil {
+				fr.trip = map[*ssa.BasicBlock]int64{}
+			}
+			for x := range naturalLoop(b) {
+				if n > fr.trip[x] {
+					fr.trip[x] = n
+				}
+			}
+		}
+	}
+	if n := fr.trip[b]; n+1 > int64(maxV) {
+		maxV = int(n + 1)
+	}
+	dynBounded := fr.trip[b] > 0
 	if v > maxV {
 		s.LoopCuts++
 		return
@@ -298,7 +322,7 @@ func (s *Sim) enterBlock(fr *Frame, st *State, b, pred *ssa.BasicBlock, k cont) 
 				break
 			}
 			t := s.val(fr, st, phi.Edges[idx])
-			if v >= maxV && isLoopHeader(b) && !staticallyBounded(b) && !s.Cfg.NoWiden {
+			if v >= maxV && isLoopHeader(b) && !staticallyBounded(b) && !dynBounded && !s.Cfg.NoWiden {
 				if last, ok := fr.lastPhi[phi]; ok && last.Key() != t.Key() {
 					// widen loop-carried values on the second visit
 					st.counter["widen"]++
@@ -332,6 +356,10 @@ func staticallyBounded(b *ssa.BasicBlock) bool {
 	_, ok := headerTrip(b)
 	return ok
 }
+
+// defaultMaxVisits: how often a block may be entered per activation when a rule
+// does not say (3 = loop bodies seen twice; the thorough tier uses 4).
+var defaultMaxVisits = 3
 
 // maxTrip is the largest constant trip count that is unrolled.
 const maxTrip = 16
@@ -412,6 +440,104 @@ func headerTrip(b *ssa.BasicBlock) (int64, bool) {
 	return n, true
 }
 
+// counterLoop: b's terminator compares a counter (a phi of b stepping by one from
+// 0, or the range form stepping from -1) with a bound; returns the bound value.
+func counterLoop(b *ssa.BasicBlock) (ssa.Value, bool) {
+	if len(b.Instrs) == 0 {
+		return nil, false
+	}
+	iff, ok := b.Instrs[len(b.Instrs)-1].(*ssa.If)
+	if !ok {
+		return nil, false
+	}
+	bo, ok := iff.Cond.(*ssa.BinOp)
+	if !ok || bo.Op != token.LSS {
+		return nil, false
+	}
+	ph, isPhi := bo.X.(*ssa.Phi)
+	start := int64(0)
+	if !isPhi {
+		inc, isInc := bo.X.(*ssa.BinOp)
+		if !isInc || inc.Op != token.ADD {
+			return nil, false
+		}
+		if c, isC := inc.Y.(*ssa.Const); !isC || c.Value == nil || c.Int64() != 1 {
+			return nil, false
+		}
+		ph, isPhi = inc.X.(*ssa.Phi)
+		start = -1
+	}
+	if !isPhi || ph.Block() != b {
+		return nil, false
+	}
+	okStart, okStep := false, false
+	for _, e := range ph.Edges {
+		switch x := e.(type) {
+		case *ssa.Const:
+			if x.Value != nil && x.Int64() == start {
+				okStart = true
+			}
+		case *ssa.BinOp:
+			if c, ok := x.Y.(*ssa.Const); ok && x.Op == token.ADD && x.X == ph && c.Value != nil && c.Int64() == 1 {
+				okStep = true
+			}
+		}
+	}
+	if !okStart || !okStep {
+		return nil, false
+	}
+	return bo.Y, true
+}
+
+// dynamicTrip: the bound of the counting loop at b evaluates to a small constant
+// in the current state (the length of a constant table handed in as an argument,
+// of a slice built by a known number of appends, …).
+func (s *Sim) dynamicTrip(fr *Frame, st *State, b *ssa.BasicBlock) (int64, bool) {
+	bound, ok := counterLoop(b)
+	if !ok {
+		return 0, false
+	}
+	if _, known := fr.env[bound]; !known {
+		if _, isC := bound.(*ssa.Const); !isC {
+			return 0, false
+		}
+	}
+	n, ok := s.val(fr, st, bound).IntVal()
+	if !ok || n < 1 || n > maxTrip {
+		return 0, false
+	}
+	return n, true
+}
+
+var naturalLoopMemo = map[*ssa.BasicBlock]map[*ssa.BasicBlock]bool{}
+
+// naturalLoop: the blocks of the loop headed by h.
+func naturalLoop(h *ssa.BasicBlock) map[*ssa.BasicBlock]bool {
+	if m, ok := naturalLoopMemo[h]; ok {
+		return m
+	}
+	body := map[*ssa.BasicBlock]bool{h: true}
+	var work []*ssa.BasicBlock
+	for _, p := range h.Preds {
+		if h.Dominates(p) && !body[p] {
+			body[p] = true
+			work = append(work, p)
+		}
+	}
+	for len(work) > 0 {
+		x := work[len(work)-1]
+		work = work[:len(work)-1]
+		for _, p := range x.Preds {
+			if !body[p] {
+				body[p] = true
+				work = append(work, p)
+			}
+		}
+	}
+	naturalLoopMemo[h] = body
+	return body
+}
+
 var loopTripMemo = map[*ssa.BasicBlock]int64{}
 
 // loopTrip: the largest constant trip count of a statically bounded loop that
@@ -461,7 +587,7 @@ func loopTrip(b *ssa.BasicBlock) int64 {
 func fixedLen(v ssa.Value) (int64, bool) {
 	if ld, ok := v.(*ssa.UnOp); ok && ld.Op == token.MUL {
 		if g, ok := ld.X.(*ssa.Global); ok && constAggFor != nil {
-			if ca := constAggFor.constAggregate(g.Object()); ca != nil && !ca.array {
+			if ca := constAggFor.constAggregate(g.Object()); ca != nil && !ca.array && !ca.isMap {
 				return int64(len(ca.elems)), true
 			}
 		}
@@ -585,6 +711,10 @@ func (s *Sim) load(st *State, addr *Term, typ types.Type) *Term {
 	// a field of a location into which a whole struct value was stored
 	if addr.Op == "fa" && len(addr.Args) == 1 {
 		if whole, ok := st.heap[addr.Args[0].Key()]; ok && whole.Op != "zero" {
+			if whole.Op == "structval" && len(whole.Args) == 1 && whole.Args[0].Key() != addr.Args[0].Key() {
+				// the struct was copied from another location: read that location's field
+				return s.load(st, &Term{Op: "fa", Name: addr.Name, Obj: addr.Obj, Type: addr.Type, Args: []*Term{whole.Args[0]}}, typ)
+			}
 			return &Term{Op: "fld", Name: addr.Name, Obj: addr.Obj, Type: typ, Args: []*Term{whole}}
 		}
 	}
@@ -643,7 +773,7 @@ func (s *Sim) constTableLoad(st *State, addr *Term, typ types.Type) *Term {
 	switch {
 	case addr.Op == "global":
 		ca := s.P.constAggregate(addr.Obj)
-		if ca == nil || ca.array {
+		if ca == nil || ca.array || ca.isMap {
 			return nil
 		}
 		backing := &Term{Op: "alloc", Name: "table:" + addr.Name, Type: typ}
@@ -1016,7 +1146,14 @@ func (s *Sim) simInstrs(fr *Frame, st *State, b *ssa.BasicBlock, from int, k con
 				fr.env[x] = &Term{Op: "fld", Name: fld.Name(), Obj: fld, Type: x.Type(), Args: []*Term{base}}
 			}
 		case *ssa.IndexAddr:
-			fr.env[x] = &Term{Op: "ia", Type: x.Type(), Args: []*Term{sliceBase(s.val(fr, st, x.X)), s.val(fr, st, x.Index)}}
+			iaBase, iaIdx := sliceBase(s.val(fr, st, x.X)), s.val(fr, st, x.Index)
+			if iv, ok := iaIdx.IntVal(); ok && iaBase.Op == "append" {
+				// element of a slice built by appends on this path: the cell it was appended from
+				if cell := appendElem(iaBase, iv); cell != nil {
+					iaBase, iaIdx = cell.Args[0], cell.Args[1]
+				}
+			}
+			fr.env[x] = &Term{Op: "ia", Type: x.Type(), Args: []*Term{iaBase, iaIdx}}
 			if _, isSlice := x.X.Type().Underlying().(*types.Slice); isSlice && s.Cfg.IndexEvents {
 				s.emit(st, fr, &Event{Kind: "index", Instr: x, Args: []*Term{s.val(fr, st, x.X), s.val(fr, st, x.Index)}})
 			}
@@ -1031,7 +1168,15 @@ func (s *Sim) simInstrs(fr *Frame, st *State, b *ssa.BasicBlock, from int, k con
 				fr.env[x] = &Term{Op: "idx", Type: x.Type(), Args: []*Term{base, idx}}
 			}
 		case *ssa.Lookup:
-			t := &Term{Op: "lookup", Type: x.Type(), Args: []*Term{s.val(fr, st, x.X), s.val(fr, st, x.Index)}}
+			mt, kt := s.val(fr, st, x.X), s.val(fr, st, x.Index)
+			// a lookup in a constant package-level map is a case split over its keys
+			if mt.Op == "init" && len(mt.Args) == 1 && mt.Args[0].Op == "global" {
+				if ca := s.P.constAggregate(mt.Args[0].Obj); ca != nil && ca.isMap {
+					s.lookupSplit(fr, st, b, i, k, x, ca, kt)
+					return
+				}
+			}
+			t := &Term{Op: "lookup", Type: x.Type(), Args: []*Term{mt, kt}}
 			if x.CommaOk {
 				t.Name = s.uid(st, fr, x)
 			}
@@ -1196,6 +1341,104 @@ func (s *Sim) simInstrs(fr *Frame, st *State, b *ssa.BasicBlock, from int, k con
 	}
 }
 
+// lookupSplit continues the simulation once per key of a constant map (with the
+// fact key == k and the mapped value) and once for "none of them" (zero value).
+func (s *Sim) lookupSplit(fr *Frame, st *State, b *ssa.BasicBlock, i int, k cont, x *ssa.Lookup, ca *constAgg, kt *Term) {
+	elemT := x.X.Type().Underlying().(*types.Map).Elem()
+	valOf := func(v ssa.Value, st2 *State) *Term {
+		switch y := v.(type) {
+		case *ssa.UnOp:
+			return s.load(st2, s.val(nil, st2, y.X), y.Type())
+		default:
+			return s.val(nil, st2, v)
+		}
+	}
+	set := func(fr2 *Frame, v *Term, ok bool) {
+		if x.CommaOk {
+			fr2.env[x] = &Term{Op: "tuple", Type: x.Type(), Args: []*Term{v, boolTerm(ok)}}
+		} else {
+			fr2.env[x] = v
+		}
+	}
+	for idx, kc := range ca.keys {
+		st2, fr2 := st.clone(), fr.clone()
+		cond := eqTerm(kt, s.val(nil, st2, kc))
+		if known, v := st2.facts.Decide(cond); known && !v {
+			continue
+		} else if !known {
+			if !st2.facts.Assume(cond, true) {
+				s.Pruned++
+				continue
+			}
+			st2.conds = append(st2.conds, Lit{Atom: cond, Pol: true})
+		}
+		set(fr2, valOf(ca.elems[idx], st2), true)
+		s.simInstrs(fr2, st2, b, i+1, k)
+		if known, v := st.facts.Decide(cond); known && v {
+			return // the key is this constant: no other case
+		}
+	}
+	// none of the keys
+	for _, kc := range ca.keys {
+		cond := eqTerm(kt, s.val(nil, st, kc))
+		if known, v := st.facts.Decide(cond); known && v {
+			return
+		} else if !known {
+			if !st.facts.Assume(cond, false) {
+				return
+			}
+			st.conds = append(st.conds, Lit{Atom: cond, Pol: false})
+		}
+	}
+	set(fr, zeroTerm(elemT), false)
+	s.simInstrs(fr, st, b, i+1, k)
+}
+
+// constLen: the length of a slice term when it is fixed on this path.
+func constLen(t *Term) (int64, bool) {
+	switch {
+	case t.IsNil():
+		return 0, true
+	case t.Op == "append" && len(t.Args) == 2:
+		a, ok1 := constLen(t.Args[0])
+		b, ok2 := constLen(t.Args[1])
+		return a + b, ok1 && ok2
+	case t.Op == "slice" && len(t.Args) == 4 && t.Args[1].Op == "none" && t.Args[2].Op == "none":
+		if n, ok := tableLen[t.Args[0].Key()]; ok {
+			return n, true
+		}
+		if n, ok := fixedLenTerm(t); ok {
+			return n, true
+		}
+	case t.Op == "make" && strings.HasPrefix(t.Name, "slice:") && len(t.Args) > 0:
+		return t.Args[0].IntVal()
+	}
+	return 0, false
+}
+
+// appendElem: the address of element i of append(append(base, a...), b...).
+func appendElem(t *Term, i int64) *Term {
+	for t.Op == "append" && len(t.Args) == 2 {
+		n0, ok := constLen(t.Args[0])
+		if !ok {
+			return nil
+		}
+		if i < n0 {
+			t = t.Args[0]
+			continue
+		}
+		part := sliceBase(t.Args[1])
+		if t.Args[1].Op == "slice" && t.Args[1].Args[1].Op != "none" {
+			return nil
+		}
+		return &Term{Op: "ia", Args: []*Term{part, intTerm(i - n0)}}
+	}
+	if t.Op == "slice" || t.Op == "alloc" || t.Op == "make" {
+		return &Term{Op: "ia", Args: []*Term{sliceBase(t), intTerm(i)}}
+	}
+	return nil
+}
+
 // sliceBase: element i of arr[:] (or arr[0:]) is element i of arr.
 func sliceBase(t *Term) *Term {
 	for t.Op == "slice" && len(t.Args) == 4 {
@@ -1339,6 +1582,11 @@ func (s *Sim) builtin(fr *Frame, st *State, x *ssa.Call, ev *Event) *Term {
 		}
 		if a[0].Op == "slice" && a[0].Args[0].Op == "alloc" && a[0].Args[1].Op == "none" && a[0].Args[2].Op == "none" {
 			if n, ok := tableLen[a[0].Args[0].Key()]; ok {
+				return intTerm(n)
+			}
+		}
+		if a[0].Op == "append" && name == "len" {
+			if n, ok := constLen(a[0]); ok {
 				return intTerm(n)
 			}
 		}
